@@ -187,7 +187,7 @@ Proof.
   unfold RSetExact.
   repeat match goal with |- context[if beq c ?X then _ else _] => destruct (beq c X) end; try reflexivity.
   - destruct (parseContentLength v); reflexivity.
-  - destruct (beq strClose v); [reflexivity|]. cbn. unfold hResetConnectionClose. destruct (hclose (rh r)); reflexivity.
+  - destruct (hasHeaderValue v strClose); [reflexivity|]. cbn. unfold hResetConnectionClose. destruct (hclose (rh r)); reflexivity.
   - unfold RSetTrailerBytes. destruct (hSetTrailer_shape (rh r) v) as [tr ->]. reflexivity.
 Qed.
 Lemma RAddExact_norm r c v : rflags (RAddExact r c v) = rflags r.
@@ -202,7 +202,7 @@ Proof.
   intros H. unfold RSetExact.
   repeat match goal with |- context[if beq c ?X then _ else _] => destruct (beq c X) end; try exact H.
   - destruct (parseContentLength v); exact H.
-  - destruct (beq strClose v); [exact H|]. cbn. unfold hResetConnectionClose. destruct (hclose (rh r)); exact H.
+  - destruct (hasHeaderValue v strClose); [exact H|]. cbn. unfold hResetConnectionClose. destruct (hclose (rh r)); exact H.
   - unfold RSetTrailerBytes. rewrite hSetTrailer_names. cbn. apply trailer_names_ok.
 Qed.
 Lemma RAddExact_tr r c v : tr_ok (htrailer (rh r)) -> tr_ok (htrailer (rh (RAddExact r c v))).
@@ -264,9 +264,9 @@ Proof.
     apply (rvals_set_single r strContentEncoding v). tauto. }
   beq_case c strConnection E4.
   { subst c. rewrite Hadd by reflexivity. subst m'. change (cls_of HResp strConnection) with CConn. cbv beta iota.
-    rewrite rvals_set_conn, mm_vals_set_same, Hv.
-    destruct (beq strClose v') eqn:Ec; [|reflexivity].
-    apply beq_eq in Ec. rewrite <- Ec. symmetry. apply set_first_le1. exact Hc. }
+    rewrite rvals_set_conn, mm_vals_set_same, Hv. unfold v'.
+    destruct (hasHeaderValue (clean v) strClose) eqn:Ec; [|reflexivity].
+    symmetry. apply set_first_le1. exact Hc. }
   beq_case c strServer E5.
   { subst c. rewrite Hadd by reflexivity. subst m'. change (cls_of HResp strServer) with CSingle. cbv beta iota.
     rewrite mm_vals_single_same by (rewrite <- Hv; apply opt1_len).
@@ -558,7 +558,7 @@ Proof.
   intros Hnc. unfold QSetExact.
   repeat match goal with |- context[if beq c ?X then _ else _] => destruct (beq c X) end; try reflexivity.
   - destruct (parseContentLength v); reflexivity.
-  - destruct (beq strClose v); [reflexivity|]. cbn. unfold hResetConnectionClose. destruct (hclose (qh q)); reflexivity.
+  - destruct (hasHeaderValue v strClose); [reflexivity|]. cbn. unfold hResetConnectionClose. destruct (hclose (qh q)); reflexivity.
   - destruct (collect_fields q Hnc) as (H1 & _ & _ & H4 & _). cbv zeta. unfold qflags. cbn. now rewrite H1, H4.
   - unfold QSetTrailerBytes. destruct (hSetTrailer_shape (qh q) v) as [tr ->]. reflexivity.
 Qed.
@@ -579,7 +579,7 @@ Proof.
   beq_case c strContentType E1; [split; [exact Hnc|exact Hun]|].
   beq_case c strContentLength E2; [destruct (parseContentLength v); [split; [cbn; apply no_cookie_del; exact Hnc|exact Hun]|split; assumption]|].
   beq_case c strConnection E4.
-  { subst c. destruct (beq strClose v); [split; [cbn; apply no_cookie_del; exact Hnc|exact Hun]|]. unfold hResetConnectionClose.
+  { subst c. destruct (hasHeaderValue v strClose); [split; [cbn; apply no_cookie_del; exact Hnc|exact Hun]|]. unfold hResetConnectionClose.
     destruct (hclose (qh q)); (split; [cbn; apply no_cookie_setArg; try reflexivity; try apply no_cookie_del; exact Hnc|exact Hun]). }
   beq_case c strCookie E5.
   { destruct (collect_fields q Hnc) as (H1 & _ & _ & _ & H5). cbv zeta. split.
@@ -615,7 +615,7 @@ Proof.
   intros Hnc H. unfold QSetExact.
   repeat match goal with |- context[if beq c ?X then _ else _] => destruct (beq c X) end; try exact H.
   - destruct (parseContentLength v); exact H.
-  - destruct (beq strClose v); [exact H|]. cbn. unfold hResetConnectionClose. destruct (hclose (qh q)); exact H.
+  - destruct (hasHeaderValue v strClose); [exact H|]. cbn. unfold hResetConnectionClose. destruct (hclose (qh q)); exact H.
   - destruct (collect_fields q Hnc) as (H1 & _). cbv zeta. cbn. rewrite H1. exact H.
   - unfold QSetTrailerBytes. rewrite hSetTrailer_names. cbn. apply trailer_names_ok.
 Qed.
@@ -660,9 +660,9 @@ Proof.
     - rewrite Hi. apply Hv. }
   beq_case c strConnection E4.
   { subst c. rewrite Hadd by reflexivity. subst m'. change (cls_of HReq strConnection) with CConn. cbv beta iota.
-    rewrite qvals_set_conn, mm_vals_set_same, Hv.
-    destruct (beq strClose v') eqn:Ec; [|reflexivity].
-    apply beq_eq in Ec. rewrite <- Ec. symmetry. apply set_first_le1. exact Hc. }
+    rewrite qvals_set_conn, mm_vals_set_same, Hv. unfold v'.
+    destruct (hasHeaderValue (clean v) strClose) eqn:Ec; [|reflexivity].
+    symmetry. apply set_first_le1. exact Hc. }
   beq_case c strCookie E5.
   { subst c. rewrite Hadd by reflexivity. subst m'. change (cls_of HReq strCookie) with CJar. cbv beta iota.
     rewrite qvals_set_cookie by exact Hnc. rewrite prc_vals, mm_vals_app, mm_vals_map_same, <- Hv. reflexivity. }
@@ -978,7 +978,7 @@ Proof.
   intros Hne. unfold QSetExact. rewrite (beq_ne_false _ _ Hne).
   repeat match goal with |- context[if beq c ?X then _ else _] => destruct (beq c X) end; try reflexivity.
   all: try (destruct (parseContentLength v); reflexivity).
-  all: try (destruct (beq strClose v); reflexivity).
+  all: try (destruct (hasHeaderValue v strClose); reflexivity).
   all: unfold QSetTrailerBytes; destruct (hSetTrailer_shape (qh q) v) as [tr ->]; reflexivity.
 Qed.
 Lemma QAddExact_collected q c v : c <> strCookie -> qcookiesCollected (QAddExact q c v) = qcookiesCollected q.
